@@ -198,6 +198,14 @@ func (v *VerifC18Shard) ClientRepair(sync *propertyv1.PropertySync, group string
 	return updated, d, derr
 }
 
+// LeafRoundTrip is repair.buildLeafNodeEntity followed by repair.parseLeafNodeEntity (the Merkle leaf name of a
+// property and its inverse, used by both gossip sides to load the property of a differing leaf).
+func (v *VerifC18Shard) LeafRoundTrip(group, name, id string) (entity, g, n, i string, err error) {
+	entity = v.s.repairState.buildLeafNodeEntity(group, name, id)
+	g, n, i, err = v.s.repairState.parseLeafNodeEntity(entity)
+	return
+}
+
 // TreeRoot snapshots the shard, rebuilds its Merkle state tree (repair.buildStatus) and returns the root
 // hash plus the leaves (entity, sha). Empty root when the shard has no documents.
 func (v *VerifC18Shard) TreeRoot(tmp string) (string, [][2]string, error) {
